@@ -34,6 +34,8 @@ if __name__ == '__main__':
         print('LOST ANCHOR:', e)
         sys.exit(2)
     res = run_verus(out)
+    for l in sp.lost:
+        print('LOST LABEL [%s]: %s' % (l['label'], l['reason'][:160]))
     print('verified=%d failed=%d wall=%.1fs smt=%sms repo_lines=%d' % (res['verified'], res['failed'], res['wall_s'], res['smt_ms'], sp.repo_lines))
     for e in res['errors']:
         print('ERR [%s] %s @gen:%d %s | %s | clause: %s' % (e['label'], e['kind'], e['gen_line'], e['repo'] or '', e['text'][:100], e['clause'][:120]))
